@@ -58,7 +58,10 @@ def eval_case(case):
     out.update(q2=st2.q, qd2=st2.qd)
     return out
 
-  o = {k: np.asarray(v).tolist() for k, v in terms(jp.asarray(q), jp.asarray(qd), jp.asarray(tau), jp.asarray(ctrl)).items()}
+  try:
+    o = {k: np.asarray(v).tolist() for k, v in terms(jp.asarray(q), jp.asarray(qd), jp.asarray(tau), jp.asarray(ctrl)).items()}
+  except Exception as e:  # the code under test failed: a verdict, not a machinery error
+    return {'xml': xml, 'q': q.tolist(), 'qd': qd.tolist(), 'tau': tau.tolist(), 'brax_error': f'{type(e).__name__}: {str(e)[:300]}'}
   d = mujoco.MjData(mj)
   d.qpos[:] = q
   d.qvel[:] = qd
@@ -96,7 +99,17 @@ def tags_for(model, what):
   return {'call': 'generalized', 'predicate': what}
 
 
+def raised(ctx, case, r):
+  if 'brax_error' in r:
+    ctx.violation(f'generalized pipeline raised: {r["brax_error"]}', {k: r[k] for k in ('xml', 'q', 'qd', 'tau')},
+                  tags_for(case['model'], 'raised'))
+    return True
+  return False
+
+
 def judge_exact(ctx, case, r):
+  if raised(ctx, case, r):
+    return
   out = case['out']
   nv = out['nv']
   bx, mj = r['brax'], r['mj']
@@ -150,6 +163,8 @@ def judge_q_update(ctx, model, r, info):
 
 
 def judge_rel(ctx, case, r):
+  if raised(ctx, case, r):
+    return
   bx, mj = r['brax'], r['mj']
   info = {k: r[k] for k in ('xml', 'q', 'qd', 'tau')}
   scale = 1 + max(np.max(np.abs(mj['M'])), np.max(np.abs(mj['smooth'])), np.max(np.abs(mj['bias'])))
@@ -191,7 +206,7 @@ def run(ctx):
   os.makedirs(tlc.WORK, exist_ok=True)
   cfg = os.path.join(tlc.WORK, 'c02.cfg')
   tlc.write_cfg(cfg, constants={'Class': '"any"', 'MaxLinks': 2 if q else 3, 'NModels': 60 if q else 800,
-                                'NPoses': 2, 'Budget': 1},
+                                'NPoses': 2, 'Budget': 1, 'SeedBase': core.seed_base(ctx, 2)},
                 invariants=['MassSymmetric', 'MassPositive', 'ModelWellFormed'])
   dump = os.path.join(tlc.WORK, 'c02')
   res = tlc.run('Dynamics', cfg, name='c02', dump=dump, seed=ctx.seed + 21, expect_ok=True)  # (-coverage exhausts the heap on the deep rational recursion)
@@ -210,6 +225,9 @@ def run(ctx):
     ctx.case(key=(r['xml'], tuple(r['q']), tuple(r['qd'])), nontrivial=c01.nontrivial(case['model']),
              sample={'xml': r['xml'], 'q': r['q'], 'qd': r['qd'], 'expected_M': fmat(case['out']['M'])}
              if len(ctx.samples) < 2 and case['out']['nv'] > 1 else None)
+    if 'brax_error' in r:
+      raised(ctx, case, r)
+      continue
     judge_exact(ctx, case, r)
   ctx.extra.update(exact_cases=len(cases), exact_cases_with_velocity=moving)
   rr = core.rng(ctx, 22)
